@@ -109,6 +109,10 @@
 (assert (forall ((r (Array Key Bytes)) (k Key) (v Bytes) (d Str)) (! (= (sumDep (store r k v) d) (+ (- (sumDep r d) (depAt k (select r k) d)) (depAt k v d))) :pattern ((sumDepV (bindView (store r k v)) d)))))
 ; two stores with different sums have different binding views (creates the equality atom so that array extensionality applies)
 (assert (forall ((r1 (Array Key Bytes)) (r2 (Array Key Bytes)) (d Str)) (! (=> (= (bindView r1) (bindView r2)) (= (sumDepV (bindView r1) d) (sumDepV (bindView r2) d))) :pattern ((sumDepV (bindView r1) d) (sumDepV (bindView r2) d)))))
+; a sum of non-negative deposits is at least each deposit (witness: a binding key with a negative deposit otherwise)
+(declare-fun depGeWit ((Array Key Bytes) Key Str) Key)
+(assert (forall ((r (Array Key Bytes)) (k Key) (d Str) (b (Array Bytes (Array Str Int))) (a Bytes) (c (Slice Coin))) (! (=> (< (sumDep r d) (depAt k (select r k) d)) (< (depAt (depGeWit r k d) (select r (depGeWit r k d)) d) 0))
+   :pattern ((sumDepV (bindView r) d) (select r k) (canPay b a c)))))
 ; I_dep (property C03): the deposit account holds exactly the recorded deposits
 (define-fun depInv ((r (Array Key Bytes)) (b (Array Bytes (Array Str Int)))) Bool
   (forall ((d Str)) (! (= (select (select b depositAcc) d) (sumDep r d)) :pattern ((select (select b depositAcc) d)) :pattern ((sumDep r d)))))
@@ -143,6 +147,8 @@
 (assert (forall ((s (Array Key Bytes)) (p Prefix) (n Int) (d Str)) (! (=> (> n 0) (= (sumIt s p n d) (+ (sumIt s p (- n 1) d) (coinAmt (dec_Coin (select s (itKey s p (- n 1)))) d)))) :pattern ((sumIt s p n d)))))
 (define-fun pfxSum ((r (Array Key Bytes)) (p Prefix) (d Str)) Int (sumIt r p (itCount r p) d))
 
+; the amount a provider has earned in one denomination: the record under KEarned(provider, denom), 0 if there is none
+(define-fun earnedAt ((r (Array Key Bytes)) (p Bytes) (d Str)) Int (ite (= (select r (KEarned p d)) bnil) 0 (Coin_Amount (dec_Coin (select r (KEarned p d))))))
 ; writing a coin list record by record (SetEarnedFees / SetOwnerEarnedFees)
 (declare-fun wrEarned ((Array Key Bytes) Bytes (Slice Coin) Int) (Array Key Bytes))
 (assert (forall ((r (Array Key Bytes)) (p Bytes) (c (Slice Coin))) (! (= (wrEarned r p c 0) r) :pattern ((wrEarned r p c 0)))))
@@ -212,7 +218,9 @@
 (define-fun actOK ((r (Array Key Bytes)) (rid Bytes)) Bool
   (=> (isActive r rid) (and (requestFound r rid) (ctxFound r (reqCtxId r rid)) (bindFound r (reqSvc r rid) (reqProv r rid)) (ordinary (reqConsumer r rid))
         (= (BytesValue_Value (dec_BytesValue (select r (KActID rid)))) rid)
-        ; a recorded fee is never negative
+        ; a recorded fee is a valid coin list, never negative, and empty for a super-mode context
+        (coinsValid (reqFee r rid))
+        (=> (RequestContext_SuperMode (ctxOf r (reqCtxId r rid))) (forall ((d Str)) (! (= (amt (reqFee r rid) d) 0) :pattern ((amt (reqFee r rid) d)))))
         (forall ((d Str)) (! (>= (amt (reqFee r rid) d) 0) :pattern ((amt (reqFee r rid) d))))
         ; the request id names its context and batch
         (= (ridCtx rid) (reqCtxId r rid)) (= (ridBatch rid) (CompactRequest_RequestContextBatchCounter (reqOf r rid)))
@@ -220,6 +228,63 @@
         (= (CompactRequest_RequestContextBatchCounter (reqOf r rid)) (RequestContext_BatchCounter (ctxOf r (reqCtxId r rid))))
         (not (= (RequestContext_BatchState (ctxOf r (reqCtxId r rid))) BATCHCOMPLETED)))))
 (define-fun actInv ((r (Array Key Bytes))) Bool (forall ((rid Bytes)) (! (actOK r rid) :pattern ((select r (KActID rid))))))
+
+; ---- I_escrow (C01): what the request escrow owes: the fees of the requests still pending plus the earnings not yet withdrawn.
+; Both are aggregates over the (finite) store with their point-update laws, like sumDep.
+; (a) pending fees: sum over the pending markers KActID(rid) of the fee recorded in the request record KReq(rid)
+(declare-fun pendView ((Array Key Bytes)) (Array Key Bytes))
+(assert (forall ((r (Array Key Bytes)) (k Key)) (! (= (select (pendView r) k) (ite (or (is-KActID k) (is-KReq k)) (select r k) bnil)) :pattern ((select (pendView r) k)))))
+(declare-fun sumPendV ((Array Key Bytes) Str) Int)
+(define-fun sumPend ((r (Array Key Bytes)) (d Str)) Int (sumPendV (pendView r) d))
+(define-fun pendFee ((r (Array Key Bytes)) (rid Bytes) (d Str)) Int
+  (ite (= (select r (KActID rid)) bnil) 0 (amt (CompactRequest_ServiceFee (dec_CompactRequest (select r (KReq rid)))) d)))
+(define-fun pendRid ((k Key)) Bytes (ite (is-KActID k) (kai_rid k) (kreq_rid k)))
+(assert (forall ((r (Array Key Bytes)) (k Key) (v Bytes) (d Str)) (! (= (sumPend (store r k v) d)
+   (ite (or (is-KActID k) (is-KReq k)) (+ (- (sumPend r d) (pendFee r (pendRid k) d)) (pendFee (store r k v) (pendRid k) d)) (sumPend r d)))
+   :pattern ((sumPendV (pendView (store r k v)) d)))))
+(assert (forall ((r1 (Array Key Bytes)) (r2 (Array Key Bytes)) (d Str)) (! (=> (= (pendView r1) (pendView r2)) (= (sumPendV (pendView r1) d) (sumPendV (pendView r2) d))) :pattern ((sumPendV (pendView r1) d) (sumPendV (pendView r2) d)))))
+; (b) earnings: sum over the earned-fee records KEarned(provider, denom) of the amount recorded under denomination d
+(declare-fun earnView ((Array Key Bytes)) (Array Key Bytes))
+(assert (forall ((r (Array Key Bytes)) (k Key)) (! (= (select (earnView r) k) (ite (is-KEarned k) (select r k) bnil)) :pattern ((select (earnView r) k)))))
+(declare-fun sumEarnV ((Array Key Bytes) Str) Int)
+(define-fun sumEarn ((r (Array Key Bytes)) (d Str)) Int (sumEarnV (earnView r) d))
+(define-fun earnAtKey ((k Key) (v Bytes) (d Str)) Int (ite (and (is-KEarned k) (= (kea_denom k) d) (not (= v bnil))) (Coin_Amount (dec_Coin v)) 0))
+(assert (forall ((r (Array Key Bytes)) (k Key) (v Bytes) (d Str)) (! (= (sumEarn (store r k v) d) (+ (- (sumEarn r d) (earnAtKey k (select r k) d)) (earnAtKey k v d)))
+   :pattern ((sumEarnV (earnView (store r k v)) d)))))
+(assert (forall ((r1 (Array Key Bytes)) (r2 (Array Key Bytes)) (d Str)) (! (=> (= (earnView r1) (earnView r2)) (= (sumEarnV (earnView r1) d) (sumEarnV (earnView r2) d))) :pattern ((sumEarnV (earnView r1) d) (sumEarnV (earnView r2) d)))))
+; clearing all records of one provider at once (DeleteEarnedFees) removes exactly that provider's amount
+(assert (forall ((r (Array Key Bytes)) (p Bytes) (d Str)) (! (= (sumEarn (clearPfx r (PEarned p)) d) (- (sumEarn r d) (earnedAt r p d))) :pattern ((sumEarnV (earnView (clearPfx r (PEarned p))) d)))))
+; a sum of non-negative terms is non-negative: if a sum is negative some term is (witness functions)
+(declare-fun pendNegWit ((Array Key Bytes) Str) Bytes)
+(assert (forall ((r (Array Key Bytes)) (d Str) (b (Array Bytes (Array Str Int))) (a Bytes) (c (Slice Coin))) (! (=> (< (sumPend r d) 0) (< (pendFee r (pendNegWit r d) d) 0)) :pattern ((sumPendV (pendView r) d) (canPay b a c)))))
+; a sum of non-negative terms is at least each of its terms
+(declare-fun pendGeWit ((Array Key Bytes) Bytes Str) Bytes)
+(assert (forall ((r (Array Key Bytes)) (rid Bytes) (d Str) (b (Array Bytes (Array Str Int))) (a Bytes) (c (Slice Coin))) (! (=> (< (sumPend r d) (pendFee r rid d)) (< (pendFee r (pendGeWit r rid d) d) 0))
+   :pattern ((sumPendV (pendView r) d) (select r (KActID rid)) (canPay b a c)))))
+(declare-fun earnNegWit ((Array Key Bytes) Str) Bytes)
+(assert (forall ((r (Array Key Bytes)) (d Str) (b (Array Bytes (Array Str Int))) (a Bytes) (c (Slice Coin))) (! (=> (< (sumEarn r d) 0) (< (earnedAt r (earnNegWit r d) d) 0)) :pattern ((sumEarnV (earnView r) d) (canPay b a c)))))
+; equal terms give equal sums: two stores whose sums differ differ in some term (witness functions)
+(declare-fun pendDiffWit ((Array Key Bytes) (Array Key Bytes) Str) Bytes)
+(assert (forall ((r1 (Array Key Bytes)) (r2 (Array Key Bytes)) (d Str)) (! (=> (not (= (sumPend r1 d) (sumPend r2 d)))
+   (not (= (pendFee r1 (pendDiffWit r1 r2 d) d) (pendFee r2 (pendDiffWit r1 r2 d) d)))) :pattern ((sumPendV (pendView r1) d) (sumPendV (pendView r2) d)))))
+(declare-fun earnDiffWit ((Array Key Bytes) (Array Key Bytes) Str) Bytes)
+(assert (forall ((r1 (Array Key Bytes)) (r2 (Array Key Bytes)) (d Str)) (! (=> (not (= (sumEarn r1 d) (sumEarn r2 d)))
+   (not (= (earnedAt r1 (earnDiffWit r1 r2 d) d) (earnedAt r2 (earnDiffWit r1 r2 d) d)))) :pattern ((sumEarnV (earnView r1) d) (sumEarnV (earnView r2) d)))))
+; the escrow is exactly backed
+(define-fun escInv ((r (Array Key Bytes)) (b (Array Bytes (Array Str Int)))) Bool
+  (forall ((d Str)) (! (= (select (select b requestAcc) d) (+ (sumPend r d) (sumEarn r d))) :pattern ((select (select b requestAcc) d)) :pattern ((sumPendV (pendView r) d)) :pattern ((sumEarnV (earnView r) d)))))
+; recorded earnings are never negative
+(define-fun earnNonneg ((r (Array Key Bytes))) Bool
+  (forall ((p Bytes) (d Str)) (! (>= (earnedAt r p d) 0) :pattern ((select r (KEarned p d))))))
+
+; the earnings of the first n providers of an owner (in the order of the owner-provider index), per denomination
+(declare-fun ownSum ((Array Key Bytes) Bytes Int Str) Int)
+(assert (forall ((r (Array Key Bytes)) (o Bytes) (d Str)) (! (= (ownSum r o 0 d) 0) :pattern ((ownSum r o 0 d)))))
+(assert (forall ((r (Array Key Bytes)) (o Bytes) (n Int) (d Str)) (! (=> (> n 0) (= (ownSum r o n d)
+   (+ (ownSum r o (- n 1) d) (earnedAt r (kop_prov (itKey r (POwnerProv o) (- n 1))) d)))) :pattern ((ownSum r o n d)))))
+; I_owner (C13), as far as it is used: the owner's recorded total is the sum of its providers' earnings
+(define-fun ownerTotalOK ((r (Array Key Bytes)) (o Bytes)) Bool
+  (forall ((d Str)) (! (= (sumIt r (POwnerEarned o) (itCount r (POwnerEarned o)) d) (ownSum r o (itCount r (POwnerProv o)) d)) :pattern ((ownSum r o (itCount r (POwnerProv o)) d)))))
 
 ; ---- I_batch (C12): the number of pending markers of a context, an aggregate with its point-update law (like sumDep)
 (declare-fun actView ((Array Key Bytes)) (Array Key Bytes))
